@@ -8,7 +8,7 @@ Prints one line per seed: DETECTED (exit 1 with a VIOLATION line), MISSED (exit 
 or ERROR (exit 2).  Evidence files are restored afterwards (git checkout).
 usage: tools/seed_test.py [--tier quick] [name ...]
 """
-import json, os, shutil, subprocess, sys, tempfile
+import fcntl, json, os, shutil, subprocess, sys, tempfile
 HERE = os.path.dirname(os.path.dirname(os.path.abspath(__file__)))
 SEEDED = os.path.join(HERE, "seeded")
 
@@ -50,12 +50,14 @@ def main():
     subprocess.run(["git", "checkout", "--", "evidence"], cwd=HERE)
     # keep the latest verdict per (seed, property) - the table of DESIGN.md section 12 is generated from it
     rp = os.path.join(SEEDED, "RESULTS.json")
-    allres = json.load(open(rp)) if os.path.exists(rp) else {}
-    for k, v in results.items():
-        allres[k] = {"verdict": v if isinstance(v, str) else v[0], "signatures": [] if isinstance(v, str) else v[1], "tier": tier}
-    with open(rp, "w") as f:
-        json.dump(allres, f, indent=1, sort_keys=True)
-        f.write("\n")
+    with open(rp + ".lock", "w") as lk:
+        fcntl.flock(lk, fcntl.LOCK_EX)          # several seed_test processes may run side by side
+        allres = json.load(open(rp)) if os.path.exists(rp) else {}
+        for k, v in results.items():
+            allres[k] = {"verdict": v if isinstance(v, str) else v[0], "signatures": [] if isinstance(v, str) else v[1], "tier": tier}
+        with open(rp, "w") as f:
+            json.dump(allres, f, indent=1, sort_keys=True)
+            f.write("\n")
     return 0
 
 if __name__ == "__main__":
